@@ -268,6 +268,7 @@ NOT_YET = {}
 # extension areas (not properties): id -> one-line description, see DESIGN.md section 11
 EXTENSIONS = {
     'X02': 'command-template substitution of custom_target/generator/configure_file and Makefile-style depfiles (specs/cmdsubst)',
+    'X07': 'option definition files (restricted expression language, option() declaration rules) and deprecated-option translation (specs/optfile)',
 }
 
 
